@@ -11,9 +11,10 @@ import (
 	"strings"
 
 	"com.tuntun.rangers/node/src/common"
+	"com.tuntun.rangers/node/src/consensus/access"
 	"com.tuntun.rangers/node/src/executor"
-	"com.tuntun.rangers/node/src/middleware/db"
-	"com.tuntun.rangers/node/src/middleware/types"
+	"com.tuntun.rangers/node/src/middleware"
+		"com.tuntun.rangers/node/src/middleware/types"
 	"com.tuntun.rangers/node/src/service"
 	"com.tuntun.rangers/node/src/storage/account"
 	"com.tuntun.rangers/node/src/utility"
@@ -24,7 +25,6 @@ import (
 const refundDelay = 36000 // service.refundHeight (unexported); checked by the tie: escrow dump uses it
 
 type world struct {
-	triedb  account.AccountDatabase
 	adb     *account.AccountDB
 	height  uint64
 	heights []uint64 // block heights of this episode (escrow heights dumped = h+refundDelay)
@@ -38,9 +38,10 @@ type world struct {
 }
 
 func newWorld(height uint64) *world {
-	mem, _ := db.NewMemDatabase()
-	w := &world{triedb: account.NewDatabase(mem)}
-	adb, err := account.NewAccountDB(common.Hash{}, w.triedb)
+	// every AccountDB of the harness comes from the node's AccountDBManager, so that the consensus readers
+	// (consensus/access.MinerPoolReader resolves a state root through the same manager) can open the committed roots
+	w := &world{}
+	adb, err := w.open(common.Hash{})
 	if err != nil {
 		panic(err)
 	}
@@ -50,6 +51,37 @@ func newWorld(height uint64) *world {
 	w.newCtx()
 	common.SetBlockHeight(height)
 	return w
+}
+
+func (w *world) open(root common.Hash) (*account.AccountDB, error) {
+	return middleware.AccountDBManagerInstance.GetAccountDBByHash(root)
+}
+
+var poolReader *access.MinerPoolReader
+
+// readerStr: what the consensus layer sees of the last COMMITTED state through consensus/access/miner_access.go:
+// GetCandidateMiners (validators that may join a group at height h), GetProposeMiner per id, GetTotalStake.
+func (w *world) readerStr() string {
+	if poolReader == nil {
+		poolReader = access.NewMinerPoolReader()
+	}
+	h := w.height
+	cs := make([]string, 0)
+	for _, c := range poolReader.GetCandidateMiners(h, w.root) {
+		cs = append(cs, fmt.Sprintf("%d/%d/%d", c.Stake, c.ApplyHeight, c.MinerType))
+	}
+	sort.Strings(cs)
+	ps := make([]string, 0)
+	for _, id := range w.ids {
+		acc, _ := middleware.AccountDBManagerInstance.GetAccountDBByHash(w.root)
+		pm := service.MinerManagerImpl.GetMinerById(id, common.MinerTypeProposer, acc)
+		if pm == nil {
+			ps = append(ps, "nil")
+		} else {
+			ps = append(ps, fmt.Sprintf("%d/%d/%d", pm.Stake, pm.ApplyHeight, pm.Type))
+		}
+	}
+	return fmt.Sprintf("%s|%s|%d", strings.Join(cs, ","), strings.Join(ps, ","), poolReader.GetTotalStake(h, w.root))
 }
 
 func (w *world) newCtx() {
@@ -215,7 +247,7 @@ func (w *world) endBlock(next uint64) string {
 	if err != nil {
 		return "commit-error"
 	}
-	adb, err := account.NewAccountDB(root, w.triedb)
+	adb, err := w.open(root)
 	if err != nil {
 		return "reopen-error"
 	}
@@ -231,13 +263,26 @@ func (w *world) endBlock(next uint64) string {
 // rewind discards the block being executed (as when a cast block is not adopted or a fork is abandoned): a fresh
 // AccountDB over the last committed root, a fresh context. Whatever lives outside the account state stays.
 func (w *world) rewind() string {
-	adb, err := account.NewAccountDB(w.root, w.triedb)
+	adb, err := w.open(w.root)
 	if err != nil {
 		return "reopen-error"
 	}
 	w.adb = adb
 	w.newCtx()
 	return "ok"
+}
+
+func (w *world) pkStr() string {
+	kk := make([]string, 0)
+	for _, id := range w.ids {
+		v, err := service.MinerManagerImpl.GetPubkey(id)
+		if err != nil {
+			kk = append(kk, "nil")
+		} else {
+			kk = append(kk, hx.Hex(v))
+		}
+	}
+	return strings.Join(kk, ",")
 }
 
 func minerStr(m *types.Miner) string {
@@ -260,7 +305,10 @@ func (w *world) iterStr(kind byte) string {
 	return strings.Join(parts, ",")
 }
 
-func (w *world) dump() string {
+func (w *world) dump() string { return w.dumpParts(true) }
+
+// dumpParts(false) leaves out balances and escrow (account-storage reads outside the registry readers).
+func (w *world) dumpParts(all bool) string {
 	mm := service.MinerManagerImpl
 	var sb strings.Builder
 	sb.WriteString("P=" + w.iterStr(common.MinerTypeProposer))
@@ -305,6 +353,9 @@ func (w *world) dump() string {
 		sb.WriteString(fmt.Sprintf(" T=%d/%d/%s/%s/%s", total, len(detail), strings.Join(ds, ","), strings.Join(pl, ","), strings.Join(vl, ",")))
 	}
 	b := make([]string, 0)
+	if !all {
+		return sb.String() + " K=" + w.pkStr()
+	}
 	for _, ad := range append(append([]common.Address{}, w.addrs...), common.FeeAccount) {
 		b = append(b, w.adb.GetBalance(ad).String())
 	}
@@ -339,16 +390,12 @@ func (w *world) dump() string {
 		}
 	}
 	sb.WriteString(" R=" + strings.Join(r, ","))
-	kk := make([]string, 0)
-	for _, id := range w.ids {
-		v, err := mm.GetPubkey(id)
-		if err != nil {
-			kk = append(kk, "nil")
-		} else {
-			kk = append(kk, hx.Hex(v))
-		}
+	sb.WriteString(" K=" + w.pkStr())
+	x := hx.Guard(func() string { return w.readerStr() })
+	if strings.HasPrefix(x, "PANIC") {
+		x = "PANIC"
 	}
-	sb.WriteString(" K=" + strings.Join(kk, ","))
+	sb.WriteString(" X=" + x)
 	return sb.String()
 }
 
